@@ -67,3 +67,19 @@ Theorem C29_marshal_results_independent :
   map (unmarshal wire_dec_command wire_dec_body gunzip) (marshal_all wire_enc_command wire_enc_body gzip cfg bs) = map Some bs.
 Proof. exact marshal_results_independent. Qed.
 Print Assumptions C29_marshal_results_independent.
+
+(* Second tie (DESIGN 3.5, docs/gotrans.md): RequestMarshaler.Marshal as translated from command/marshal.go on
+   this run decides like the hand model: want_compress (thresholds) then choose (smaller or forced); a failing
+   pb.Marshal / gzCompress gives (nil, false, err).  gen_marshal = the generated function on a request given as
+   (statements, encoding); zs = bytes as Z. *)
+From RQ Require Import Lib.GoLib Gen.Marshal Proofs.C29_Gen.
+Theorem C29_source_derived_eq : forall (E : Type) (err : E) (gzip : bytes -> option bytes),
+  (forall c ss raw gz, gzip raw = Some gz ->
+     gen_marshal E err gzip c (ss, Some raw) =
+       (zs (fst (choose c (want_compress c ss) raw gz)), snd (choose c (want_compress c ss) raw gz), None)) /\
+  (forall c ss raw, gzip raw = None ->
+     gen_marshal E err gzip c (ss, Some raw) =
+       if want_compress c ss then ([], false, Some err) else (zs raw, false, None)) /\
+  (forall c ss, gen_marshal E err gzip c (ss, None) = ([], false, Some err)).
+Proof. exact gen_marshal_eq. Qed.
+Print Assumptions C29_source_derived_eq.
